@@ -118,7 +118,7 @@ func parseHarnessOutput(out string, r *BoundedResult) {
 }
 
 func writeBoundedReplay(out *propOutcome, b *BoundedResult, f BoundedFailure) violation {
-	dir := filepath.Join(verifDir(), "replays")
+	dir := replayDir()
 	os.MkdirAll(dir, 0o755)
 	file := filepath.Join(dir, fmt.Sprintf("%s_%s.json", out.ID, hashStr(b.Name+f.Key)))
 	rep := map[string]any{"property": out.ID, "bounded_check": b.Name, "key": f.Key, "detail": f.Detail,
